@@ -248,7 +248,23 @@ pub fn check(c: &Case, stats: &mut Stats) -> CheckResult {
     ensure!(self_diff == empty, "compare/self-not-empty", "compare(o,o) reports {self_diff:?}");
     let rt = roundtrip(&o2).map_err(|e| Failure { signature: "construct/roundtrip".into(), message: e })?;
     let rt_diff = observed_diff(&o2, &rt)?;
-    ensure!(rt_diff == empty, "compare/roundtrip-not-empty", "compare(o, roundtrip(o)) reports {rt_diff:?}");
+    // the binary format stores 255 bytes of a term name / gene symbol: longer names (text path) come
+    // back cut, and exactly those renames must be reported
+    let mut cut = expected_facts(&c.new, c.path);
+    for t in cut.terms.iter_mut() {
+        t.name = char_prefix(&t.name, 255).to_string();
+    }
+    for r in cut.recs[GENE].iter_mut() {
+        r.name = char_prefix(&r.name, 255).to_string();
+    }
+    let want_rt = model_diff(&m2, &Model::new(&cut));
+    if want_rt != empty {
+        stats.label("name-longer-than-255-bytes");
+    }
+    if rt_diff != want_rt {
+        let (sig, msg) = explain(&want_rt, &rt_diff);
+        return fail(format!("compare/roundtrip/{sig}"), format!("compare(o, roundtrip(o)): {msg}"));
+    }
     for e in &c.edits {
         stats.label(&format!("edit:{e}"));
     }
@@ -285,10 +301,12 @@ pub fn apply_edit(f: &mut Facts, kind: usize, p: [u16; 3], name: &str) -> Option
     match kind {
         0 => {
             let t = &mut f.terms[pick(p[0], n)];
-            if t.name == name {
+            // one rename in three extends the old name (long names then share a long prefix)
+            let new_name = if p[2] % 3 == 0 { format!("{}{name}", t.name) } else { name.to_string() };
+            if t.name == new_name {
                 return None;
             }
-            t.name = name.to_string();
+            t.name = new_name;
         }
         1 => {
             // new parent link that keeps the graph acyclic
@@ -375,10 +393,11 @@ pub fn apply_edit(f: &mut Facts, kind: usize, p: [u16; 3], name: &str) -> Option
                 return None;
             }
             let i = pick(p[1], f.recs[k].len());
-            if f.recs[k][i].name == name {
+            let new_name = if p[2] % 3 == 0 { format!("{}{name}", f.recs[k][i].name) } else { name.to_string() };
+            if f.recs[k][i].name == new_name {
                 return None;
             }
-            f.recs[k][i].name = name.to_string();
+            f.recs[k][i].name = new_name;
         }
         12 => {
             let k = (p[0] % 3) as usize;
@@ -421,7 +440,8 @@ pub fn apply_edit(f: &mut Facts, kind: usize, p: [u16; 3], name: &str) -> Option
 
 fn strategy(tier: Tier) -> BoxedStrategy<Case> {
     let max = if tier == Tier::Quick { 12 } else { 40 };
-    let cfg = GenCfg::small().terms(2, max).recs(4).standard().with_flags(true).names(NameMode::Capped);
+    // names up to 300 bytes; for the binary paths they are cut to the 255 bytes the format stores
+    let cfg = GenCfg::small().terms(2, max).recs(4).standard().with_flags(true).names(NameMode::Rich);
     let paths = prop_oneof![6 => Just(PathSel::Bin(3)), 2 => Just(PathSel::Bin(2)), 1 => Just(PathSel::Bin(1)), 2 => Just(PathSel::Jax), 1 => Just(PathSel::RoundTrip)];
     (gen::facts(cfg), vec((0usize..EDIT_KINDS.len(), any::<[u16; 3]>(), name_strategy(NameMode::Plain)), 0..=4), paths)
         .prop_map(|(old, script, path)| {
@@ -433,6 +453,17 @@ fn strategy(tier: Tier) -> BoxedStrategy<Case> {
                 }
             }
             new.ann_calls = new.canonical_ann_calls();
+            let mut old = old;
+            if !matches!(path, PathSel::Jax) {
+                for f in [&mut old, &mut new] {
+                    for t in f.terms.iter_mut() {
+                        t.name = char_prefix(&t.name, 255).to_string();
+                    }
+                    for r in f.recs[GENE].iter_mut() {
+                        r.name = char_prefix(&r.name, 255).to_string();
+                    }
+                }
+            }
             Case { old, new, edits, path }
         })
         .boxed()
@@ -443,7 +474,7 @@ impl Property for C18 {
         "C18"
     }
     fn rule(&self) -> String {
-        "Generated: a base fact set (both ontologies built through own v3 / v2 / v1 bytes, the as_bytes round trip or JAX files; obsolete terms, replacements to existing and to non-existing ids, records of all kinds) and an edit script of 0-4 edits out of 15 kinds (rename term, add/remove parent link, flip obsolete, set replacement to an existing / non-existing id, clear replacement, change replacement between two ids that are not terms, add/remove term, add/remove/rename record, add/remove link). Oracle: the difference computed on the two fact sets: added/removed id sets per entity kind; changed terms with exact name pair, added/removed parent sets, obsolete pair, replacement id pair; changed records with name pair, added/removed terms, n_terms; every list free of duplicates; compare(new,old) is the mirror image; compare(o,o) and compare(o, roundtrip(o)) report nothing. evaluations = comparisons. Non-trivial = the two fact sets differ; every edit kind must occur as a single-edit script in a run; distinct by hash of the case.".into()
+        "Generated: a base fact set (both ontologies built through own v3 / v2 / v1 bytes, the as_bytes round trip or JAX files; obsolete terms, replacements to existing and to non-existing ids, records of all kinds) and an edit script of 0-4 edits out of 15 kinds (rename term, add/remove parent link, flip obsolete, set replacement to an existing / non-existing id, clear replacement, change replacement between two ids that are not terms, add/remove term, add/remove/rename record, add/remove link). Oracle: the difference computed on the two fact sets: added/removed id sets per entity kind; changed terms with exact name pair, added/removed parent sets, obsolete pair, replacement id pair; changed records with name pair, added/removed terms, n_terms; every list free of duplicates; compare(new,old) is the mirror image; compare(o,o) reports nothing and compare(o, roundtrip(o)) exactly the names the binary format cuts at 255 bytes (text path: names up to 300 bytes; one rename in three extends the old name, so that long names share a long prefix). evaluations = comparisons. Non-trivial = the two fact sets differ; every edit kind must occur as a single-edit script in a run; distinct by hash of the case.".into()
     }
     fn assumptions(&self) -> Vec<String> {
         vec!["'replacement' of a term is the replacement id stored with it (replacement_id), whether or not that id is a term of the same ontology".into()]
@@ -458,7 +489,7 @@ impl Property for C18 {
         vec![
             "nontrivial", "single:rename-term", "single:add-parent", "single:remove-parent", "single:flip-obsolete", "single:set-replacement-existing", "single:set-replacement-dangling",
             "single:clear-replacement", "single:add-term", "single:remove-term", "single:add-record", "single:remove-record", "single:rename-record", "single:add-link", "single:remove-link",
-            "single:change-replacement-dangling-to-dangling",
+            "single:change-replacement-dangling-to-dangling", "name-longer-than-255-bytes",
         ]
     }
     fn run_generated(&self, tier: Tier, seed: u64, n: u64, stats: &mut Stats) -> Option<(Value, Failure)> {
